@@ -231,6 +231,8 @@ def base_axioms():
     A(("truthy_str", _q([ss], truthy(VStr(ss)) == (z3.Length(ss) > 0), [truthy(VStr(ss))])))
     A(("truthy_seq", _q([p], z3.Implies(z3.And(is_VObj(p), z3.Or(tag(p) == TAG["tuple"], tag(p) == TAG["list"])),
                                          truthy(p) == (slen(p) > 0)), [truthy(p)])))
+    A(("truthy_map", _q([m, k], z3.Implies(z3.And(is_VObj(m), tag(m) == TAG["dict"], mhas(m, k)), truthy(m)),
+                        [z3.MultiPattern(mhas(m, k), truthy(m))])))
     return ax
 
 
